@@ -90,6 +90,7 @@ def run(ctx):
     capi_cmp = capi_bad = late_cases = 0
     docs_by_set = {}
     mrdocs = 0
+    row_start = {"form-feed": 0, "stray-CR": 0, "VT": 0, "unicode-blank": 0}
     perm_counts = {}
     ties = 0
     placement = {"inside": 0, "equal": 0, "front": 0, "behind": 0}
@@ -153,6 +154,8 @@ def run(ctx):
                 ctx.violation("judge", "C18 C API (c_lib.rs ts_tagger_tag) disagrees with the Rust API on the same input: " + kv["capi"][:200],
                               {"case": cid, "spec": specs.get(cid, ""), "result": kv},
                               fingerprint={"queryset": qid, "clause": "capi"})
+        for cls, key in (("form-feed", "rsff"), ("stray-CR", "rscr"), ("VT", "rsvt"), ("unicode-blank", "rsuni")):
+            row_start[cls] += int(kv.get(key, 0))
         ties += int(kv.get("ties", 0))
         for pm in kv.get("perms", "-").split(","):
             if pm != "-" and pm:
@@ -199,6 +202,7 @@ def run(ctx):
         "tags_with_docs_by_query_set": docs_by_set,
         "doc_captures_spanning_several_rows": mrdocs,
         "tags_by_placement_of_name_vs_tagged_node": placement,
+        "tags_on_rows_starting_with": row_start,
         "name_nodes_with_several_matches_of_their_lowest_pattern(ties)": ties,
         "name_nodes_shared_by_3_or_4_patterns_by_arrival_order_of_pattern_indices": dict(sorted(perm_counts.items())),
         "explorer_summary": summary,
@@ -221,6 +225,8 @@ def run(ctx):
         p3 = {"".join(p): perm_counts.get("".join(p), 0) for p in itertools.permutations("012")}
         p4 = {"".join(p): perm_counts.get("".join(p), 0) for p in itertools.permutations("0123")}
         ctx.oblige("inputs:3-patterns-one-name-all-6-arrival-orders>=20", all(v >= 20 for v in p3.values()), str(p3))
+        ctx.oblige("inputs:tags-on-rows-starting-with-FF/CR/VT/unicode-blank>=30-each", all(v >= 30 for v in row_start.values()),
+                   str(row_start))
         ctx.oblige("inputs:name-nodes-with-several-matches-of-the-lowest-pattern>=50", ties >= 50, "%d" % ties)
         ctx.oblige("inputs:4-patterns-one-name-all-24-arrival-orders>=3", all(v >= 3 for v in p4.values()),
                    str({k: v for k, v in p4.items() if v < 3}) or "all")
